@@ -349,7 +349,9 @@ const logFormatDisconnected = "disconnected due to unsupported message type: %d 
 
 // Be executed asynchronously after readed message
 func (c *handlerCtx) handle() {
-	if c.stat.Code() == CodeMtypeNotAllowed {
+	// only the framework's own verdict on the message type disconnects:
+	// a plugin or handler status that happens to carry the same code is an ordinary error reply
+	if c.stat == statCodeMtypeNotAllowed {
 		goto E
 	}
 	switch c.input.Mtype() {
